@@ -105,7 +105,7 @@ def run_stream(gen, stream, segs=None, close_after=False):
         pid = 30
         delivered = False
         tries = 0
-        while sent <= MAX_PROBE_BYTES + 3 * 64 and tries < 3000:
+        while sent <= MAX_PROBE_BYTES + 4096 and tries < 3000:
             tries += 1
             c = net.current()
             if c is None:
